@@ -57,8 +57,7 @@ func (m *MACPayload) decode(payload []byte, pos *int) error {
 		return err
 	}
 	payloadLength := len(payload) - *pos - 4 /* MIC */
-	if payloadLength == 1 || payloadLength < 0 {
-		// payload must include port so port + payload can't be 1
+	if payloadLength < 0 {
 		return ErrBufferTruncated
 	}
 	if payloadLength == 0 {
